@@ -111,7 +111,7 @@ def run_shard(spec):
         rng = random.Random(0)
         for k, (tag, prog) in enumerate(idioms.history_programs()):
             if k % spec['parts'] == spec['part']:
-                argsets = idioms.HISTORY_ARGS if spec['tier'] != 'quick' else [idioms.HISTORY_ARGS[(k // 8) % 4], idioms.HISTORY_ARGS[(k // 8 + 1 + k % 3) % 4]]
+                argsets = idioms.HISTORY_ARGS if (spec['tier'] != 'quick' or tag.startswith('history-nested')) else [idioms.HISTORY_ARGS[(k // 8) % 4], idioms.HISTORY_ARGS[(k // 8 + 1 + k % 3) % 4]]
                 for args in argsets:
                     check_program(res, prog, args, rng, tag)
         return res
